@@ -479,7 +479,7 @@ def run(tier: str, seed: int) -> int:
         for y in YEARS:
             tasks.append(("c06.parse", dict(kind="dateTime", free=True, fixed={"year": y}), None, ()))
     else:
-        # block selection: core years always, one extra year block per seed
+        # every year of the alphabet, <= 3 non-default components each (the seed selects nothing)
         for y in YEARS:
             tasks.append(("c06.parse", dict(kind="dateTime", free=False, fixed={"year": y}), 3, ()))
     tasks.append(("c06.yearspell", {}, None, ()))
